@@ -388,7 +388,49 @@ func c09Binary(r *core.RNG, e c09Entry, k int64) ([]byte, string) {
 	return r.Bytes(sz), "sized"
 }
 
+// c09FirstCalls: the first crypto-touching decoder calls of a fresh worker
+// process use the all-zero key (even batches) or a random key then the zero key.
+func c09FirstCalls(c *core.Ctx) {
+	if !c.Mine("first-calls", int64(c.Batch)) {
+		return
+	}
+	r := c.RNG("first-calls", int64(c.Batch))
+	var zero, other lorawan.AES128Key
+	r.Fill(other[:])
+	keys := []lorawan.AES128Key{zero, other, zero}
+	if c.Batch%2 == 1 {
+		keys = []lorawan.AES128Key{other, zero, other}
+	}
+	for step, k := range keys {
+		for mt := 0; mt < 8; mt++ {
+			wire := validFrameBytes(r, mt)
+			calls := map[string]func(p *lorawan.PHYPayload) error{
+				"DecryptFRMPayload":        func(p *lorawan.PHYPayload) error { return p.DecryptFRMPayload(k) },
+				"DecryptFOpts":             func(p *lorawan.PHYPayload) error { return p.DecryptFOpts(k) },
+				"DecryptJoinAcceptPayload": func(p *lorawan.PHYPayload) error { return p.DecryptJoinAcceptPayload(k) },
+				"ValidateUplinkDataMIC": func(p *lorawan.PHYPayload) error {
+					_, err := p.ValidateUplinkDataMIC(lorawan.LoRaWAN1_1, 0, 0, 0, k, k)
+					return err
+				},
+				"ValidateUplinkJoinMIC": func(p *lorawan.PHYPayload) error { _, err := p.ValidateUplinkJoinMIC(k); return err },
+			}
+			for _, name := range []string{"DecryptFRMPayload", "DecryptFOpts", "DecryptJoinAcceptPayload", "ValidateUplinkDataMIC", "ValidateUplinkJoinMIC"} {
+				var p lorawan.PHYPayload
+				if p.UnmarshalBinary(append([]byte{}, wire...)) != nil {
+					continue
+				}
+				c.Eval(1)
+				if pn, msg := core.Guard(func() { calls[name](&p) }); pn {
+					c.Violate("C09|panic|first-calls|"+name+"|"+core.PanicSite(msg), "call sequence of a fresh process, step %d with key %x on frame %x: %s", step, k, wire, short(msg, 300))
+				}
+			}
+		}
+		c.Shape("first-calls", c.Batch%2, step)
+	}
+}
+
 func runC09(c *core.Ctx) {
+	c09FirstCalls(c)
 	entries := c09Entries()
 	per := c.N(3000, 600000)
 	for ei, e := range entries {
